@@ -575,7 +575,7 @@ func priceDisciplineX(p *Prog, r *Report, rule string, modules map[string]bool, 
 						// find the GetTwa call(s) the struct comes from
 						var calls_ []*ssa.Call
 						for _, o := range p.Origins(base) {
-							if o.Kind == "call" && len(o.Path) == 0 && p.callIs(o.Call, "GetTwa") {
+							if o.Kind == "call" && len(o.Path) == 0 && (p.callIs(o.Call, "GetTwa") || (o.Index == 0 && p.isGuardedTwaGetterCall(o.Call))) {
 								calls_ = append(calls_, o.Call)
 							}
 						}
@@ -733,5 +733,56 @@ func twaGuards(p *Prog, calls_ []*ssa.Call) []*GuardSpec {
 			return false, false
 		},
 	}
+	allGuardedGetters := len(calls_) > 0
+	for _, c := range calls_ {
+		if !p.isGuardedTwaGetterCall(c) {
+			allGuardedGetters = false
+		}
+	}
+	if allGuardedGetters {
+		// the helper hands the record out only when found && IsPriceActive: testing its ok result is both
+		return []*GuardSpec{found}
+	}
 	return []*GuardSpec{found, active}
+}
+
+// isGuardedTwaGetterCall: a call of a comdex helper `(TimeWeightedAverage, bool)` whose every
+// `true` return is reachable only behind found && IsPriceActive of the GetTwa call inside it.
+func (p *Prog) isGuardedTwaGetterCall(c ssa.CallInstruction) bool {
+	h := c.Common().StaticCallee()
+	if h == nil || !isComdexFn(h) || len(h.Blocks) == 0 || h.Name() == "GetTwa" {
+		return false
+	}
+	res := h.Signature.Results()
+	if res.Len() != 2 || namedTypeName(derefAll(res.At(0).Type())) != "TimeWeightedAverage" || res.At(1).Type().String() != "bool" {
+		return false
+	}
+	var gets []*ssa.Call
+	for _, hc := range calls(h) {
+		if cc, ok := hc.(*ssa.Call); ok && p.callIs(hc, "GetTwa") {
+			gets = append(gets, cc)
+		}
+	}
+	if len(gets) == 0 {
+		return false
+	}
+	var trueRets []*ssa.BasicBlock
+	for _, rt := range returns(h) {
+		if len(rt.Results) != 2 {
+			return false
+		}
+		if b, isC := constBool(rt.Results[1]); isC && !b {
+			continue
+		}
+		trueRets = append(trueRets, rt.Block())
+	}
+	if len(trueRets) == 0 {
+		return false
+	}
+	for _, g := range twaGuards(p, gets) {
+		if ok, _, _ := p.guardedTargets(g, h, trueRets, 0); !ok {
+			return false
+		}
+	}
+	return true
 }
